@@ -962,9 +962,565 @@ def add_variance_transform(plan, tier):
                                "list iterators index the live list)"]
 
 
+# ============================================================================================== _postselection_postprocess (simulate.py)
+PS_STUBS = {
+    "Shots": ("class Shots:\n    def __bool__(self):\n        return self.total_shots is not None\n\n    def __iter__(self):\n        return self.entries\n",
+              {"total_shots": NoneV, "entries": NoneV}),
+    "_FlexShots": ("class _FlexShots:\n    def __init__(self, shots=None):\n        self.arg = shots\n", {"arg": NoneV}),
+    "Rng": ("class Rng:\n    pass\n", {"binomial": NoneV}),
+}
+
+
+class Vec(Model):
+    """a state vector: concrete number of real components (real and imaginary parts of the amplitudes), symbolic values"""
+
+    def __init__(self, items, invalid=False):
+        self.items, self.invalid = list(items), invalid
+
+    def vf_binop(self, interp, name, other, swapped, node):
+        if name != "truediv" or swapped or isinstance(other, (Vec, Rec)):
+            raise Unsupp(f"state vector operation {name}")
+        d = real_of(other)
+        if interp.ctx.branch(d != 0):
+            return Vec([FloatV(real_of(x) / d) for x in self.items], self.invalid)
+        return Vec(self.items, invalid=True)           # numpy: division by zero gives nan / inf entries (no exception)
+
+    def concretize_with(self, world, model):
+        from vf.pyvc.engine import concretize
+        return [concretize(world, x, model) for x in self.items]
+
+    def snapshot(self):
+        return self
+
+
 def add_postselection(plan, tier):
-    pass
+    """_postselection_postprocess: documented hw-like / fill-shots semantics.  With P = <state|state> the Born probability of the postselected
+    outcome (state = the projected, unnormalised state): hw-like (and the default mode) keeps each shot with probability P, i.e. every entry s of
+    the shot vector is replaced by ONE draw Binomial(s, P); fill-shots keeps the shot vector and refuses P = 0; the state is renormalised."""
+    import numpy as np
+    cell = {}
+
+    def m_norm(it, a, k):
+        v = a[0]
+        if not isinstance(v, Vec) or len(a) != 1 or k:
+            raise Unsupp("math.norm of this value")
+        n = z3.Real(it.ctx.fresh_name("norm"))
+        sq = z3.Sum([real_of(x) * real_of(x) for x in v.items])
+        it.ctx.assume(z3.And(n >= 0, n * n == sq))
+        return FloatV(n)
+
+    def m_allclose(it, a, k):
+        return real_of(a[0]) == real_of(a[1])
+
+    def binom(it, a, k):
+        if len(a) != 2 or k:
+            raise RaiseExc("TypeError")
+        s, q = a
+        if not is_intlike(s) or not isinstance(q, (FloatV, float, int)):
+            raise RaiseExc("TypeError")
+        d = z3.Int(it.ctx.fresh_name("binomial_draw"))
+        it.ctx.assume(z3.And(d >= 0, d <= as_int(s)))
+        cell["draws"].append((as_int(s), real_of(q), d))
+        return d
+    xb = {"math.norm": m_norm, "math.is_abstract": lambda it, a, k: False, "math.allclose": m_allclose, "np.random.binomial": binom, "rng_binomial": binom}
+    w = World(SIMF, stubs=PS_STUBS, extra_builtins=xb)
+    C = w.classes
+
+    def ghost(ctx, a):
+        cell["draws"], cell["ctx"] = [], ctx
+        P = z3.Sum([real_of(x) * real_of(x) for x in a.state.items])
+        root = z3.Real(ctx.fresh_name("sqrt_of_P"))
+        ctx.assume(z3.And(root >= 0, root * root == P))        # specification constant: the square root of the non-negative real P
+        cell["P"], cell["root"] = P, root
+
+    def state_t(d):
+        return T("build", lambda ctx, name: Vec([FloatV(z3.Real(ctx.fresh_name(f"{name}{i}"))) for i in range(d)]), gen=lambda rng: None)
+
+    def shots_t(n):
+        def ctor(ctx, name):
+            if n is None:
+                return Rec(C["Shots"], {"total_shots": None, "entries": PyList([])})
+            es = [z3.Int(ctx.fresh_name(f"shots{i}")) for i in range(n)]
+            for e in es:
+                ctx.assume(e >= 0)
+            return Rec(C["Shots"], {"total_shots": z3.Sum(es) if n > 1 else es[0], "entries": PyList(es)})
+        return T("build", ctor, gen=lambda rng: None)
+
+    def rng_t(present):
+        if not present:
+            return NoneV
+        return T("build", lambda ctx, name: Rec(C["Rng"], {"binomial": FuncRef("builtin", "rng_binomial")}), gen=lambda rng: None)
+
+    def entries_of(sh):
+        return list(sh.f["entries"].items)
+
+    # ---- native side: real arrays, real Shots, a recording random generator ----------------------------------------------------------------
+    class FakeRng:
+        def __init__(self):
+            self.draws = []
+
+        def binomial(self, n, p):
+            k = int(round(int(n) * min(max(float(p), 0.0), 1.0) * 0.75))
+            self.draws.append((int(n), float(p), k))
+            return k
+
+    def native_call(mod, a):
+        from pennylane.core.shots import Shots
+        amps = np.asarray(a["state"], dtype=float)
+        state = (amps[0::2] + 1j * amps[1::2]).reshape((2,) * int(np.log2(len(amps) // 2))) if a["complex"] else amps.reshape((2,) * int(np.log2(len(amps))))
+        shots = Shots(None) if a["shots"] is None else (mod._FlexShots(list(a["shots"])) if (0 in a["shots"] or a["flex"]) else Shots(list(a["shots"])))
+        rec = FakeRng()
+        kw = {}
+        if a["rng"]:
+            kw["rng"] = rec
+        if a["mode_given"]:
+            kw["postselect_mode"] = a["mode"]
+        saved = np.random.binomial
+        np.random.binomial = rec.binomial          # rng=None: the function draws from numpy's global generator
+        try:
+            out_state, out_shots = mod._postselection_postprocess(state, a["is_state_batched"], shots, **kw)
+        finally:
+            np.random.binomial = saved
+        with np.errstate(all="ignore"):
+            flat = np.asarray(out_state).reshape(-1)
+        return {"state": [complex(x) for x in flat], "same_shots_object": out_shots is shots, "shots": None if not out_shots else [int(s) for s in out_shots],
+                "shots_type": type(out_shots).__name__, "draws": rec.draws, "input_state": [complex(x) for x in state.reshape(-1)]}
+
+    def post_native(r, a):
+        x = np.asarray(r["input_state"])
+        P = float(np.sum(np.abs(x) ** 2))
+        ok = True
+        if P > 1e-12:
+            ok = ok and np.allclose(np.asarray(r["state"]), x / np.sqrt(P), atol=1e-9, rtol=0)
+        if a["shots"] is None:
+            return bool(ok and r["same_shots_object"] and r["draws"] == [])
+        if a["mode"] == "fill-shots":
+            return bool(ok and r["draws"] == [] and r["shots"] == list(a["shots"]))
+        ok = ok and len(r["draws"]) == len(a["shots"]) and all(n == s and abs(p - P) <= 1e-9 for (n, p, _), s in zip(r["draws"], a["shots"]))
+        return bool(ok and r["shots"] == [k for _, _, k in r["draws"]])
+
+    def gen(d, nshots, mode, mode_given, rng_present, batched, cplx):
+        def g(rng, m):
+            import random
+            r = rng or random.Random(repr(m)[:300])
+            amps = m.get("state") if rng is None and isinstance(m.get("state"), list) and len(m["state"]) == d else None
+            if amps is None:
+                amps = [r.choice([0.0, 0.5, -0.5, r.uniform(-1, 1)]) for _ in range(d)]
+                if r.random() < 0.15:
+                    amps = [0.0] * d
+            sh = None
+            if nshots is not None:
+                msh = m.get("shots") if rng is None and isinstance(m.get("shots"), dict) else None
+                sh = [max(0, int(s)) for s in msh["entries"]] if msh else [r.choice([1, 7, 100, 1000]) for _ in range(nshots)]
+            return {"state": [float(x) for x in amps], "is_state_batched": batched, "shots": sh, "rng": rng_present, "mode": mode, "mode_given": mode_given,
+                    "complex": cplx, "flex": bool(r.random() < 0.3) if rng is not None else False}
+        return g
+
+    def ensures_for(nshots, mode):
+        def ensures(o, r, nw):
+            if isinstance(nw.state, list):
+                return post_native(r, dict(nw.__dict__)) if hasattr(nw, "__dict__") else False
+            if not (isinstance(r, tuple) and len(r) == 2 and isinstance(r[0], Vec)):
+                return False
+            st, sh = r
+            P, root = cell["P"], cell["root"]
+            xs = nw.state.items
+            # the returned state is the normalised input (whenever the postselected outcome is possible at all)
+            good_state = S.Implies(P > 0, And(not st.invalid, *[real_of(y) * root == real_of(x) for y, x in zip(st.items, xs)]))
+            draws = cell["draws"]
+            if nshots is None:
+                return And(good_state, sh is nw.shots, len(draws) == 0)
+            es = entries_of(nw.shots)
+            if not (isinstance(sh, Rec) and sh.cls.name == "_FlexShots"):
+                return False
+            arg = sh.f["arg"]
+            if isinstance(arg, Rec):
+                got = entries_of(arg) if arg.cls.name == "Shots" else None
+            else:
+                got = list(arg.items) if isinstance(arg, PyList) else (list(arg) if isinstance(arg, tuple) else None)
+            if got is None or len(got) != len(es):
+                return False
+            if mode == "fill-shots":
+                return And(good_state, len(draws) == 0, *[as_int(g) == as_int(e) for g, e in zip(got, es)])
+            if len(draws) != len(es):
+                return False
+            return And(good_state, *[And(s == as_int(e), q == P, as_int(g) == k) for (s, q, k), e, g in zip(draws, es, got)])
+        return ensures
+
+    def fill_zero(o):
+        return cell["P"] == 0 if not isinstance(o.state, list) else sum(x * x for x in o.state) <= 1e-16
+
+    cases = []
+    dims = (2, 4) if tier == "quick" else (2, 4, 8)
+    for d in dims:
+        for nshots in (None, 1, 2, 3):
+            for mode, mode_given in ((None, False), (None, True), ("hw-like", True), ("fill-shots", True)):
+                for rng_present in (False, True):
+                    if nshots == 3 and (d != dims[0] or not mode_given):
+                        continue
+                    if d == dims[-1] and d > 2 and rng_present and nshots is None:
+                        continue
+                    params = {"state": state_t(d), "is_state_batched": T("const", False), "shots": shots_t(nshots), "rng": rng_t(rng_present),
+                              "prng_key": NoneV}
+                    km = {"rng": "rng", "prng_key": "prng_key"}
+                    if mode_given:
+                        params["mode"] = T("const", mode)
+                        km["postselect_mode"] = "mode"
+                    lab = (f"{d} real components, " + ("analytic" if nshots is None else f"shot vector of {nshots}") + ", postselect_mode "
+                           + (repr(mode) if mode_given else "absent") + (", rng given" if rng_present else ", rng None"))
+                    raises = {}
+                    kwargs = dict(must_return=None)
+                    if mode == "fill-shots" and nshots is not None:
+                        raises = {"RuntimeError": fill_zero}
+                        kwargs["must_return"] = lambda o: S.Not(fill_zero(o))
+                    c = Case(lab, params, ghost=ghost, ensures=ensures_for(nshots, mode), raises=raises, kwargs_map=km, native_call=native_call,
+                             native_gen=gen(d, nshots, mode, mode_given, rng_present, False, d >= 4), native_raw=True, size_bounded=True, **kwargs)
+                    cases.append(c)
+    # broadcasting is refused
+    cases.append(Case("batched state is refused", {"state": state_t(2), "is_state_batched": T("const", True), "shots": shots_t(1), "rng": NoneV, "prng_key": NoneV},
+                      ghost=ghost, ensures=lambda o, r, nw: False, raises={"ValueError": lambda o: True}, kwargs_map={"rng": "rng", "prng_key": "prng_key"},
+                      native_call=native_call, native_gen=gen(2, 1, None, False, False, True, False), native_raw=True, size_bounded=True))
+    fc = FnContract(w, "_postselection_postprocess", cases)
+    plan.fn_under_contract(SIMF, "_postselection_postprocess")
+    for ob in obligations_for(PID, fc, tier):
+        plan.add(ob)
+    plan.size_bounds.append(f"_postselection_postprocess: states of {dims} real components, shot vectors of 0..3 entries (symbolic shot counts >= 0), "
+                            "postselect_mode absent / None / 'hw-like' / 'fill-shots', rng given / None; amplitudes symbolic reals")
+    plan.assumed_contracts += ["qp.math.norm(state) is the non-negative n with n^2 = sum of squared components; state / n divides every component; "
+                               "qp.math.allclose(n, 0.0) iff n == 0 (tolerance dropped: A-float-as-real)",
+                               "binomial(s, q) returns an integer in [0, s] (the contract states WHICH (s, q) are drawn, once per shot-vector entry, in order; "
+                               "that numpy's generator samples Binomial(s, q) is assumed)",
+                               "_FlexShots(list of ints) is the shot vector with those per-entry counts (stub; the real class is used in the native replay)",
+                               "float(x) / int(x) of a real / integer value are the identity"]
+    plan.assumptions.append("A-float-as-real: floating-point amplitudes and probabilities are real numbers")
+
+
+# ============================================================================================== defer_measurements (E2: exact symbolic parameters)
+DMF = "pennylane/transforms/defer_measurements.py"
+
+# A dynamic circuit is DESCRIBED independently of PennyLane objects:
+#   ("g", gate name, [parameter names], [wires])                     a gate
+#   ("m", measurement id, wire, reset, postselect)                   a mid-circuit measurement
+#   ("c", predicate name, [measurement ids], gate name, [parameter names], [wires])   a classically controlled gate
+# plus the terminal part: the wires whose reduced density matrix is observed and measurement-value statistics ("mv", predicate/arith name, ids).
+DM_PRED = {      # outcome tuple -> value (python, the specification side)
+    "m": lambda s: s[0], "not": lambda s: 1 - s[0], "and": lambda s: s[0] & s[1], "or": lambda s: s[0] | s[1], "sum1": lambda s: int(s[0] + s[1] == 1),
+    "eq": lambda s: int(s[0] == s[1]), "m+2m": lambda s: s[0] + 2 * s[1], "sum2": lambda s: int(s[0] + s[1] + s[2] == 2),
+}
+
+
+def dm_mv(name, ms):
+    """the same value written with PennyLane's measurement-value arithmetic"""
+    if name == "m":
+        return ms[0]
+    if name == "not":
+        return ~ms[0]
+    if name == "and":
+        return ms[0] & ms[1]
+    if name == "or":
+        return ms[0] | ms[1]
+    if name == "sum1":
+        return ms[0] + ms[1] == 1
+    if name == "eq":
+        return ms[0] == ms[1]
+    if name == "m+2m":
+        return ms[0] + 2 * ms[1]
+    if name == "sum2":
+        return ms[0] + ms[1] + ms[2] == 2
+    raise KeyError(name)
+
+
+def dm_build_tape(desc, terminal, P):
+    """the real tape of a described circuit; P: parameter name -> value (Sym or float)"""
+    import pennylane as qp
+    ops, mvs = [], {}
+    for item in desc:
+        if item[0] == "g":
+            _, nm, ps, ws = item
+            ops.append(getattr(qp, nm)(*[P[p] for p in ps], wires=ws))
+        elif item[0] == "m":
+            _, mid, wire, reset, post = item
+            mv = qp.measure(wire, reset=reset, postselect=post)
+            mvs[mid] = mv
+            ops.append(mv.measurements[0])
+        else:
+            _, pred, ids, nm, ps, ws = item
+            ops.append(qp.ops.Conditional(dm_mv(pred, [mvs[i] for i in ids]), getattr(qp, nm)(*[P[p] for p in ps], wires=ws)))
+    ms = [qp.probs(wires=list(terminal["wires"]))] if terminal["wires"] else []
+    for (pred, ids) in terminal.get("mv", ()):
+        ms.append(qp.expval(dm_mv(pred, [mvs[i] for i in ids])))
+    return qp.tape.QuantumScript(ops, ms)
+
+
+class _Num:
+    """scalar adapter: exact Poly entries or complex floats"""
+
+    def __init__(self, exact):
+        self.exact = exact
+
+    def zero(self):
+        from vf.symx.ring import Poly
+        return Poly() if self.exact else 0j
+
+    def one(self):
+        from vf.symx.ring import Poly
+        return Poly.const(1) if self.exact else 1 + 0j
+
+    def const(self, k):
+        from vf.symx.ring import Poly
+        return Poly.const(k) if self.exact else complex(k)
+
+    def is_zero(self, x):
+        return x.is_zero() if self.exact else x == 0
+
+    def conj(self, x):
+        return x.conj() if self.exact else complex(x).conjugate()
+
+    def matrix(self, m):
+        import numpy as np
+        from vf.symx.scalar import poly_matrix
+        return poly_matrix(m) if self.exact else np.asarray(m).astype(complex)
+
+
+def dm_apply(num, state, M, axes):
+    """apply the 2^k x 2^k matrix M to the tensor `state` (one axis per wire) on `axes` (first = most significant)"""
+    import numpy as np
+    n, k = state.ndim, len(axes)
+    other = [a for a in range(n) if a not in axes]
+    new = np.empty(state.shape, dtype=object)
+    sub = list(itertools.product((0, 1), repeat=k))
+    for rest in itertools.product((0, 1), repeat=len(other)):
+        idx = [0] * n
+        for a, b in zip(other, rest):
+            idx[a] = b
+        vec = []
+        for bits in sub:
+            for a, b in zip(axes, bits):
+                idx[a] = b
+            vec.append(state[tuple(idx)])
+        live = [j for j, v in enumerate(vec) if not num.is_zero(v)]
+        for r, bits in enumerate(sub):
+            acc = num.zero()
+            for j in live:
+                if not num.is_zero(M[r, j]):
+                    acc = acc + M[r, j] * vec[j]
+            for a, b in zip(axes, bits):
+                idx[a] = b
+            new[tuple(idx)] = acc
+    return new
+
+
+def dm_zero_state(num, n):
+    import numpy as np
+    st = np.empty((2,) * n, dtype=object)
+    for idx in itertools.product((0, 1), repeat=n):
+        st[idx] = num.zero()
+    st[(0,) * n] = num.one()
+    return st
+
+
+def dm_reduced(num, states, keep):
+    """sum over the given pure (unnormalised) states of their reduced density matrices on the axes `keep`"""
+    import numpy as np
+    d = 2 ** len(keep)
+    rho = np.empty((d, d), dtype=object)
+    for i in range(d):
+        for j in range(d):
+            rho[i, j] = num.zero()
+    kb = list(itertools.product((0, 1), repeat=len(keep)))
+    for st in states:
+        n = st.ndim
+        other = [a for a in range(n) if a not in keep]
+        for rest in itertools.product((0, 1), repeat=len(other)):
+            idx = [0] * n
+            for a, b in zip(other, rest):
+                idx[a] = b
+            col = []
+            for bits in kb:
+                for a, b in zip(keep, bits):
+                    idx[a] = b
+                col.append(st[tuple(idx)])
+            live = [i for i, v in enumerate(col) if not num.is_zero(v)]
+            for i in live:
+                for j in live:
+                    rho[i, j] = rho[i, j] + col[i] * num.conj(col[j])
+    return rho
+
+
+def dm_norm2(num, st):
+    acc = num.zero()
+    for x in st.flat:
+        if not num.is_zero(x):
+            acc = acc + x * num.conj(x)
+    return acc
+
+
+def dm_reference(desc, terminal, P, exact=True):
+    """SPECIFICATION: branch enumeration.  A mid-circuit measurement splits every branch into its outcomes (only the postselected one survives), the
+    branch state is projected (not renormalised: its squared norm is the branch weight), reset flips an outcome-1 wire back to |0>, a classically
+    controlled gate is applied in the branches whose outcomes satisfy its predicate.  Result: the sum over branches of the reduced density matrices on the
+    observed wires, then for each measurement-value statistic the weight-averaged value.  Gates come from refs/gates.py (documented matrices)."""
+    from refs import gates as G
+    import numpy as np
+    num = _Num(exact)
+    wires = sorted({w for it in desc for w in (it[3] if it[0] == "g" else [it[2]] if it[0] == "m" else it[5])} | set(terminal["wires"]))
+    ax = {w: i for i, w in enumerate(wires)}
+    n = len(wires)
+
+    def gate(nm, ps):
+        npar, _, builder = G.REF[nm]
+        if exact:
+            return num.matrix(builder(*[P[p] for p in ps]))
+        from vf.symx.scalar import sym, pm_eval, poly_matrix
+        return pm_eval(poly_matrix(builder(*[sym(p) for p in ps])), {p: P[p] for p in ps})
+    PROJ = {v: num.matrix(np.array([[1 - v, 0], [0, v]])) for v in (0, 1)}
+    XM = num.matrix(np.array([[0, 1], [1, 0]]))
+    branches = [(dm_zero_state(num, n), {})]
+    for it in desc:
+        if it[0] == "g":
+            M = gate(it[1], it[2])
+            branches = [(dm_apply(num, st, M, [ax[w] for w in it[3]]), sg) for st, sg in branches]
+        elif it[0] == "m":
+            _, mid, wire, reset, post = it
+            nxt = []
+            for st, sg in branches:
+                for v in ((0, 1) if post is None else (post,)):
+                    s2 = dm_apply(num, st, PROJ[v], [ax[wire]])
+                    if reset and v == 1:
+                        s2 = dm_apply(num, s2, XM, [ax[wire]])
+                    nxt.append((s2, {**sg, mid: v}))
+            branches = nxt
+        else:
+            _, pred, ids, nm, ps, ws = it
+            M = gate(nm, ps)
+            branches = [((dm_apply(num, st, M, [ax[w] for w in ws]) if DM_PRED[pred](tuple(sg[i] for i in ids)) else st), sg) for st, sg in branches]
+    out = list(dm_reduced(num, [st for st, _ in branches], [ax[w] for w in terminal["wires"]]).reshape(-1)) if terminal["wires"] else []
+    for pred, ids in terminal.get("mv", ()):
+        acc = num.zero()
+        for st, sg in branches:
+            val = DM_PRED[pred](tuple(sg[i] for i in ids))
+            if val:
+                acc = acc + dm_norm2(num, st) * num.const(int(val))
+        out.append(acc)
+    res = np.empty(len(out), dtype=object)
+    for i, x in enumerate(out):
+        res[i] = x
+    return res
+
+
+def dm_deferred(desc, terminal, P, exact=True, **kw):
+    """the REAL defer_measurements on the real tape; the circuit it returns (no mid-circuit measurement left) is evaluated gate by gate with the
+    operators' own matrices: reduced density matrix on the observed wires of the final (unnormalised) state, and the measurement-value statistics read
+    off the wires the transform mapped them to"""
+    import numpy as np
+    import pennylane as qp
+    num = _Num(exact)
+    tape = dm_build_tape(desc, terminal, P)
+    batch, fn = qp.defer_measurements(tape, **kw)
+    if len(batch) != 1:
+        raise ValueError(f"defer_measurements returned {len(batch)} tapes")
+    new = batch[0]
+    if any(type(op).__name__ in ("MidMeasure", "Conditional") for op in new.operations):
+        raise ValueError("mid-circuit measurement / conditional left in the deferred tape")
+    wires = list(new.wires)
+    for w in terminal["wires"]:
+        if w not in wires:
+            wires.append(w)
+    ax = {w: i for i, w in enumerate(wires)}
+    st = dm_zero_state(num, len(wires))
+    for op in new.operations:
+        st = dm_apply(num, st, num.matrix(qp.matrix(op)), [ax[w] for w in op.wires])
+    out = []
+    nmv = 0
+    for mp in new.measurements:
+        if mp.mv is None:
+            if type(mp).__name__ != "ProbabilityMP" or list(mp.wires) != list(terminal["wires"]):
+                raise ValueError(f"terminal measurement changed: {mp}")
+            out += list(dm_reduced(num, [st], [ax[w] for w in mp.wires]).reshape(-1))
+        else:
+            nmv += 1
+            mws = [m.wires[0] for m in mp.mv.measurements]
+            rho = dm_reduced(num, [st], [ax[w] for w in mws])
+            acc = num.zero()
+            for i, bits in enumerate(itertools.product((0, 1), repeat=len(mws))):
+                val = mp.mv.processing_fn(*bits) if mp.mv.has_processing else bits[0]
+                if val:
+                    acc = acc + rho[i, i] * num.const(int(val))
+            out.append(acc)
+    if nmv != len(terminal.get("mv", ())) or len(new.measurements) != nmv + (1 if terminal["wires"] else 0):
+        raise ValueError("number of terminal measurements changed")
+    res = np.empty(len(out), dtype=object)
+    for i, x in enumerate(out):
+        res[i] = x
+    return res
+
+
+def dm_circuits(tier):
+    """enumerated circuit shapes (gate parameters a, b, c stay symbolic): label -> (description, terminal, transform kwargs)"""
+    out = {}
+    RP = [(r, p) for r in (False, True) for p in (None, 0, 1)]
+
+    def rp(r, p):
+        return ("reset" if r else "no reset") + ", " + ("no postselection" if p is None else f"postselect {p}")
+    # ---- one measurement on an entangled pair; the measured wire is reused by a gate / only observed / not touched again
+    for r, p in RP:
+        for reuse in ("gate", "observed", "untouched"):
+            for pred in ("m", "not"):
+                if pred == "not" and reuse != "gate":
+                    continue
+                d = [("g", "RY", ["a"], [0]), ("g", "CNOT", [], [0, 1]), ("m", 0, 0, r, p)]
+                if reuse == "gate":
+                    d.append(("g", "RY", ["b"], [0]))
+                d.append(("c", pred, [0], "RX", ["c"], [1]))
+                term = {"wires": [1] if reuse == "untouched" else [0, 1], "mv": [("m", [0])] if reuse != "observed" else []}
+                out[f"one measurement ({rp(r, p)}), measured wire {reuse} afterwards, gate applied if {pred}"] = (d, term, {})
+    # ---- the measured wire is the TARGET of the conditional gate afterwards
+    for r, p in RP:
+        d = [("g", "RY", ["a"], [0]), ("m", 0, 0, r, p), ("c", "m", [0], "RY", ["b"], [0]), ("g", "RX", ["c"], [0])]
+        out[f"one measurement ({rp(r, p)}), conditional gate on the measured wire itself"] = (d, {"wires": [0], "mv": [("m", [0])]}, {})
+    # ---- postselection information not used for the controls (reduce_postselected=False)
+    for r, p in ((False, 0), (True, 1), (False, 1), (True, 0)):
+        d = [("g", "RY", ["a"], [0]), ("g", "CNOT", [], [0, 1]), ("m", 0, 0, r, p), ("g", "RY", ["b"], [0]), ("c", "m", [0], "RX", ["c"], [1])]
+        out[f"one measurement ({rp(r, p)}), reduce_postselected=False"] = (d, {"wires": [0, 1], "mv": []}, {"reduce_postselected": False})
+    # ---- two measurements: distinct wires / the same wire twice; conditions on both outcomes
+    two = [((False, None), (False, None)), ((True, None), (True, None)), ((True, 1), (False, None)), ((False, None), (True, 1)), ((True, 1), (True, 1)),
+           ((True, 0), (True, None)), ((False, 1), (True, 0)), ((True, None), (False, 1))]
+    if tier != "quick":
+        two = [(x, y) for x in RP for y in RP]
+    for (r0, p0), (r1, p1) in two:
+        for pred in ("and", "sum1"):
+            d = [("g", "RY", ["a"], [0]), ("g", "RY", ["b"], [1]), ("g", "CNOT", [], [0, 2]), ("m", 0, 0, r0, p0), ("m", 1, 1, r1, p1),
+                 ("c", pred, [0, 1], "RX", ["c"], [2]), ("g", "CNOT", [], [0, 1])]
+            out[f"two measurements on two wires ({rp(r0, p0)}; {rp(r1, p1)}), gate applied if {pred}"] = (d, {"wires": [0, 1, 2], "mv": [("m+2m", [0, 1])]}, {})
+        d = [("g", "RY", ["a"], [0]), ("g", "CNOT", [], [0, 1]), ("m", 0, 0, r0, p0), ("g", "RY", ["b"], [0]), ("m", 1, 0, r1, p1),
+             ("c", "eq", [0, 1], "RX", ["c"], [1])]
+        out[f"the same wire measured twice ({rp(r0, p0)}; {rp(r1, p1)}), gate applied if outcomes equal"] = (d, {"wires": [0, 1], "mv": [("m+2m", [0, 1])]}, {})
+    return out
 
 
 def add_defer_measurements(plan, tier, seed):
-    pass
+    """defer_measurements returns a circuit without mid-circuit measurements whose exact result is the branch-averaged result of the dynamic circuit
+    (property: deferred measurement returns the exact branch-averaged result, with reset and postselection)"""
+    from vf.symx.oblig import identity_obligation
+    names = ["a", "b", "c"]
+    circuits = dm_circuits(tier)
+    for label, (desc, term, kw) in circuits.items():
+        used = [n for n in names if any(n in (it[2] if it[0] == "g" else it[4] if it[0] == "c" else ()) for it in desc)]
+        plan.add(identity_obligation(
+            f"{PID}/defer_measurements:defer_measurements/{label}", "post", used,
+            traced=lambda S, desc=desc, term=term, kw=kw: dm_deferred(desc, term, S, True, **kw),
+            reference=lambda S, desc=desc, term=term: dm_reference(desc, term, S, True),
+            native=lambda env, desc=desc, term=term, kw=kw: dm_deferred(desc, term, env, False, **kw).astype(complex),
+            seed=seed, func=(DMF, "defer_measurements"), size_bounded=True,
+            sample="reduced density matrix on the observed wires + measurement-value statistics of the deferred circuit == branch enumeration, "
+                   "for all real gate parameters"))
+    for q in ("defer_measurements", "_collect_mid_measure_info", "_add_control_gate"):
+        plan.fn_under_contract(DMF, q)
+    plan.size_bounds.append(f"defer_measurements: {len(circuits)} circuit shapes on 2-3 wires (1 measurement: every reset / postselect combination x measured "
+                            "wire reused by a gate / only observed / untouched / target of the conditional; 2 measurements on two wires or twice on one wire for "
+                            "selected reset / postselect combinations, conditions m, ~m, m0 & m1, m0 + m1 == 1, m0 == m1, statistic m0 + 2*m1); rotation angles symbolic")
+    plan.trusted_base += ["vf/symx (exact Laurent-polynomial arithmetic); refs/gates.py (documented gate matrices) for the branch-enumerating reference",
+                          "qp.matrix of the operators the deferred circuit consists of (RX, RY, CNOT, PauliX, Projector, Controlled with control values): "
+                          "executed on exact scalars, their own contracts are C02 / C08"]
+    plan.assumptions.append("defer_measurements: the deferred circuit is evaluated as the product of its operators' matrices (the device's execution of that "
+                            "static circuit, including the normalisation after a Projector, is not part of this contract)")
